@@ -14,7 +14,7 @@ ASSUMPTIONS = ["a dangling view is only observable once the freed memory has bee
 T1 = b"t1"
 
 
-def make_case(rng, nested=False, consumer=False, midplain=False, large=False):
+def make_case(rng, nested=False, consumer=False, midplain=False, large=False, siblings=False):
     # large: one broker leads 3..5 partitions with ~20..30 KiB each, so that the fetch reply exceeds 64 KiB (the client then reads it
     # in several steps into a buffer that grows, and anything done to that buffer after parsing shows)
     nparts = rng.randint(1, 4) if not large else rng.randint(3, 5)
@@ -23,7 +23,7 @@ def make_case(rng, nested=False, consumer=False, midplain=False, large=False):
         off = rng.randint(0, 3)
         kind = rng.choice(["plain", "gzip", "snappy"])
         msgs = []
-        for _ in range(rng.randint(1, 4) if not large else rng.randint(3, 4)):
+        for _ in range((rng.randint(2, 4) if siblings else rng.randint(1, 4)) if not large else rng.randint(3, 4)):
             val = rand_bytes(rng, 0, 200) if not large else bytes(rng.getrandbits(8) for _ in range(rng.randint(5000, 7400)))
             msgs.append(("plain", off, None if rng.random() < 0.3 else rand_bytes(rng, 0, 6), val))
             off += 1
@@ -36,6 +36,12 @@ def make_case(rng, nested=False, consumer=False, midplain=False, large=False):
             else:
                 inner = ("wrap", rng.choice(["gzip", "snappy"]), msgs[-1][1], msgs)
                 logs[(T1, p)] = [("wrap", rng.choice(["gzip", "snappy"]), msgs[-1][1], [inner])]
+        elif siblings and p == 0 and len(msgs) >= 2:
+            # two compressed batches side by side in one partition's set (the consumer is two produced batches behind); the client
+            # exposes the first only (C02's known class) - here only the STABILITY of what is exposed is judged
+            cut_ = rng.randint(1, len(msgs) - 1)
+            logs[(T1, p)] = [("wrap", rng.choice(["gzip", "snappy"]), msgs[cut_ - 1][1], msgs[:cut_]),
+                             ("wrap", rng.choice(["gzip", "snappy"]), msgs[-1][1], msgs[cut_:])]
         elif kind == "plain":
             logs[(T1, p)] = msgs
         else:
@@ -71,7 +77,7 @@ def make_case(rng, nested=False, consumer=False, midplain=False, large=False):
                                    T("produce_messages", [1, 1, 0, [pm(b"t2", 0, None, rand_bytes(rng, 1, 50))]])]))
         ops.append(reread)
     ops += [T("churn", [300]), reread, T("drop_results"), T("churn", [50])]
-    return {"cluster": spec, "ops": ops, "meta": {"first": first, "nested": nested, "consumer": consumer, "midplain": midplain, "large": large, "two_topics": two_topics}}
+    return {"cluster": spec, "ops": ops, "meta": {"first": first, "nested": nested, "consumer": consumer, "midplain": midplain, "large": large, "two_topics": two_topics, "siblings": siblings}}
 
 
 def gen(rng, tier):
@@ -81,6 +87,8 @@ def gen(rng, tier):
         cases.append(make_case(rng, nested=(i % 4 == 0), consumer=(i % 3 == 0), midplain=(i % 8 == 0)))
     for i in range(16 if tier == "quick" else 300):
         cases.append(make_case(rng, nested=(i % 5 == 0), consumer=(i % 2 == 0), large=True))
+    for i in range(16 if tier == "quick" else 300):
+        cases.append(make_case(rng, consumer=(i % 2 == 0), siblings=True))
     return cases
 
 
@@ -110,8 +118,14 @@ def oracle(case, recs, cl):
     first = _messages(recs[m["first"]]["impl"].args[0], m["consumer"])
     # the first reading against the log content (byte-identical to what the broker sent)
     for (t, p), log in case["cluster"]["logs"].items():
-        if m.get("midplain") and p == 0:
-            continue      # content of this layout is C02's known class; stability is checked below
+        if (m.get("midplain") or m.get("siblings")) and p == 0:
+            # WHICH messages of this layout are exposed is C02's known class; but whatever is exposed carries the log's bytes
+            want = dict((o, (k or b"", v or b"")) for (o, k, v) in kproto.flatten_entries(log))
+            for (o, k, v) in first.get((t, p), []):
+                if want.get(o) != (k, v):
+                    fails.append("%s first reading of %r/%d: offset %d reads key %r value %r, the log holds %r" % (cls, t, p, o, k[:12], v[:12], want.get(o)))
+                    break
+            continue
         want = [(o, k or b"", v or b"") for (o, k, v) in kproto.flatten_entries(log)]
         got = first.get((t, p), [])
         if got != want:
